@@ -4,7 +4,7 @@ import operator
 from pyasn1 import error
 from pyasn1.type import univ, char, useful, namedtype, tag as ptag, base as _base
 
-from pv.core import ir, lib, harness, x690
+from pv.core import ir, lib, harness, x690, build
 
 PROP = 'C19'
 LEVEL = 'exploration'
@@ -20,7 +20,8 @@ RULE = ('Hypothesis rule-based state machines drive (1) SEQUENCE OF / SET OF obj
         'change nothing; ill-formed operations raise a lookup / library error and change nothing; a CHOICE never holds two '
         'alternatives. (4) Enumeration: every arithmetic / conversion / comparison operator of every simple type applied to a '
         'valueless schema object raises PyAsn1Error. (5) SEQUENCE / SET without declared components, filled by position and value-'
-        'cloned, against a dict over field-0, field-1, ... (len, keys, values, items, iteration, in, reads, DER). Non-trivial = a mutator after clear / reset / clone, or a reader between two '
+        'cloned, against a dict over field-0, field-1, ... (len, keys, values, items, iteration, in, reads, DER). (6) Assignment and '
+        'reading by tag with innerFlag=True through CHOICEs nested three deep, against a dict. Non-trivial = a mutator after clear / reset / clone, or a reader between two '
         'mutators; distinct = distinct histories.')
 ASSUMPTIONS = ['model decisions are those of DESIGN.md Appendix A (documented auto-instantiating accessors are modelled as such)']
 SHARDS = {'quick': {'of': (6, 120), 'record': (5, 120), 'choice': (4, 120), 'dynrec': (1, 600)},
@@ -47,6 +48,10 @@ def fail(sub, kind, msg, hist, sig=''):
 
 
 # =================================================================== (1) SEQUENCE OF / SET OF vs list
+
+from pyasn1.type import constraint as _constraint
+SMALL_INT = univ.Integer().subtype(subtypeSpec=_constraint.ValueRangeConstraint(-5, 5))
+
 
 class OfRun(object):
     """Interprets one history on a real object and on the list model."""
@@ -157,6 +162,14 @@ class OfRun(object):
                 o.getComponentByPosition(len(m), instantiate=False).append(op[1])
                 self.m = m + [op[1]]
                 self.pending = False
+            elif name == 'append-sub':
+                # a value object of a constrained SUBTYPE of the component type is a legal member; what later overwrites it
+                # is judged by the container's component type, not by the occupant it replaces
+                if self.nested or not self.setup['typed'] or abs(op[1]) > 5:
+                    self.hist['ops'].pop()
+                    return None
+                o.append(SMALL_INT.clone(op[1]))
+                self.m = (m or []) + [op[1]]
             elif name == 'append':
                 o.append(self.elem(op[1]))
                 self.m = (m or []) + [op[1]]
@@ -1014,7 +1027,54 @@ def run_dynrec(case):
     return []
 
 
+# =================================================================== (6) assignment and reading by tag, through nested untagged CHOICEs
+
+def run_bytype(case):
+    """SET {a INTEGER, c CHOICE {u CHOICE {p BOOLEAN, q OCTET STRING, w CHOICE {s NULL, t [0] INTEGER}}, r UTF8String}} driven by
+    setComponentByType / getComponentByType with innerFlag=True (documented: "search for matching tagSet recursively") against
+    a dict model. case: {'bytype': True, 'ops': [[leaf, value]]} -> failures"""
+    W = {'k': 'CHOICE', 'tags': [], 'alts': [{'name': 's', 't': {'k': 'NULL', 'tags': []}}, {'name': 't', 't': {'k': 'INTEGER', 'tags': [['I', 'C', 0]]}}]}
+    U = {'k': 'CHOICE', 'tags': [], 'alts': [{'name': 'p', 't': {'k': 'BOOLEAN', 'tags': []}}, {'name': 'q', 't': {'k': 'OCTETSTRING', 'tags': []}},
+                                            {'name': 'w', 't': W}]}
+    C = {'k': 'CHOICE', 'tags': [], 'alts': [{'name': 'u', 't': U}, {'name': 'r', 't': {'k': 'UTF8String', 'tags': []}}]}
+    T = {'k': 'SET', 'tags': [], 'comps': [{'name': 'a', 't': INT, 'p': 'req'}, {'name': 'c', 't': C, 'p': 'req'}]}
+    o = build.schema(T)
+    leaf_tags = {'a': univ.Integer.tagSet, 'p': univ.Boolean.tagSet, 'q': univ.OctetString.tagSet, 'r': char.UTF8String.tagSet,
+                 's': univ.Null.tagSet, 't': univ.Integer().subtype(implicitTag=ptag.Tag(ptag.tagClassContext, ptag.tagFormatSimple, 0)).tagSet}
+    path = {'p': lambda x: ('u', ('p', x)), 'q': lambda x: ('u', ('q', x)), 'r': lambda x: ('r', x), 's': lambda x: ('u', ('w', ('s', None))),
+            't': lambda x: ('u', ('w', ('t', x)))}
+    m = {}
+    hist = {'bytype': True, 'ops': []}
+    for leaf, x in case['ops']:
+        hist['ops'].append([leaf, x])
+        val = {'a': x, 'p': bool(x % 2), 'q': bytes([x % 256]), 'r': 'v%d' % x, 's': None, 't': x}[leaf]
+        try:
+            o.setComponentByType(leaf_tags[leaf], '' if leaf == 's' else val, innerFlag=True)
+        except Exception as ex:
+            return [fail('bytype', 'raises', 'setComponentByType(%s, innerFlag=True) raised %s' % (leaf, harness.exc_sig(ex)), hist, harness.exc_sig(ex))]
+        if leaf == 'a':
+            m['a'] = val
+        else:
+            m['c'] = path[leaf](val)
+        try:
+            got = o.getComponentByType(leaf_tags[leaf], innerFlag=True)
+            ok = {'a': lambda: int(got) == val, 'p': lambda: bool(got) == val, 'q': lambda: bytes(got.asOctets()) == val, 'r': lambda: str(got) == val,
+                  's': lambda: got.isValue, 't': lambda: int(got) == val}[leaf]()
+        except Exception as ex:
+            return [fail('bytype', 'read-raises', 'getComponentByType(%s, innerFlag=True) raised %s' % (leaf, harness.exc_sig(ex)), hist, harness.exc_sig(ex))]
+        if not ok:
+            return [fail('bytype', 'read', 'reading %s back by tag gives %r, assigned %r' % (leaf, got, val), hist)]
+        if 'a' in m and 'c' in m:
+            e = lib.encode('DER', o)
+            ref = x690.der(T, m)
+            if not e.ok or e.value != ref:
+                return [fail('bytype', 'encoding', 'DER %s, model %s after %s' % (e.value.hex()[:60] if e.ok else e.brief(), ref.hex()[:60], [leaf, x]), hist)]
+    return []
+
+
 def replay(case):
+    if 'bytype' in case:
+        return run_bytype(case)
     if 'dynrec' in case:
         return run_dynrec(case)
     if 'scalar' in case:
@@ -1034,6 +1094,16 @@ def run_shard(desc, seed, tier, col):
         return scalar_sweep(col)
     if desc['mode'] == 'dynrec':
         from hypothesis import strategies as st
+        strat2 = st.lists(st.tuples(st.sampled_from(['a', 'p', 'q', 'r', 's', 't', 't', 's']), st.integers(0, 300)), min_size=1, max_size=8)
+
+        def body2(ops):
+            case = {'bytype': True, 'ops': [list(o) for o in ops]}
+            leaves = [o[0] for o in ops]
+            col.case(case, len(set(leaves)) >= 2, ['bytype'] + (['three-levels'] if any(x in leaves for x in 'st') else []),
+                     sample={'container': 'SET with CHOICEs nested three deep', 'ops': case['ops'][:8]})
+            for f in run_bytype(case):
+                col.fail(f['sub'], f['kind'], f['msg'], f['case'], sig=f['sig'])
+        harness.run_given(strat2, body2, seed + 1, max(50, desc['examples'] // 3), col)
         vals = st.one_of(st.sampled_from([0, 1, -1, 127, 128, 300]), st.lists(st.integers(0, 255), max_size=3))
         op = st.one_of(st.tuples(st.just('set'), st.integers(0, 4), vals), st.tuples(st.just('set'), st.integers(0, 4), vals),
                        st.tuples(st.just('clone')), st.tuples(st.just('clear')))
@@ -1050,7 +1120,7 @@ def run_shard(desc, seed, tier, col):
     import hypothesis
     from hypothesis import strategies as st
     from hypothesis.stateful import RuleBasedStateMachine, rule, initialize, run_state_machine_as_test
-    ints = st.sampled_from([0, 1, 2, 3, 5, 7, 127, 128, -1, -129, 300])
+    ints = st.sampled_from([0, 1, 2, 3, 5, 7, 127, 128, -1, -129, 300, 70000])
     mode = desc['mode']
 
     class Base(RuleBasedStateMachine):
@@ -1085,6 +1155,10 @@ def run_shard(desc, seed, tier, col):
             @rule(x=ints)
             def append(self, x):
                 self.do(['append', x], True)
+
+            @rule(x=ints)
+            def append_sub(self, x):
+                self.do(['append-sub', x], True)
 
             @rule()
             def touch(self):
